@@ -2,7 +2,7 @@
    (vm_compute) by harness/c19.py.  Case = L (A op :: args). *)
 From Coq Require Import ZArith List Bool String.
 From PTK Require Import Lib.Sx Lib.Py Lib.C19_Str Gen.C19_Palette
-     Model.C19_Palette Model.C19_Style Model.C19_Sgr Model.C19_FromDict Model.C19_Transform Model.C19_Cache Model.C19_Merged Model.C19_Float.
+     Model.C19_Palette Model.C19_Style Model.C19_Sgr Model.C19_FromDict Model.C19_Transform Model.C19_Cache Model.C19_Merged Model.C19_Float Model.C19_Nested.
 Import ListNotations.
 Open Scope Z_scope.
 
@@ -144,6 +144,44 @@ Definition enc_eanswer (a : eanswer) : sx :=
   | ARules r => L [A 5; sx_list (fun nr : str * str => L [sx_str (fst nr); sx_str (snd nr)]) r]
   end.
 
+(* outer style objects (Model/C19_Nested.v): same shapes as dec_sty *)
+Fixpoint dec_sty1 (s : sx) : option sty1 :=
+  match s with
+  | L [A 0; A id] => Some (N1Style id)
+  | L [A 1] => Some N1Dummy
+  | L [A 2; A slot] => Some (N1Dynamic slot)
+  | L [A 3; L ts] =>
+      match (fix go (l : list sx) : option (list sty1) :=
+               match l with
+               | [] => Some []
+               | x :: r => match dec_sty1 x, go r with
+                           | Some y, Some r' => Some (y :: r')
+                           | _, _ => None
+                           end
+               end) ts with
+      | Some l => Some (N1Merged l)
+      | None => None
+      end
+  | _ => None
+  end.
+
+(* [0 slot []|[id]] inner switch, [3 slot []|[0 id]|[1 k]] outer switch, [1 k s] outer look-up,
+   [2 k] outer style_rules, [4 k s] look-up on inner object k *)
+Definition dec_event1 (s : sx) : option event1 :=
+  match s with
+  | L [A 0; A slot; L []] => Some (E1Switch0 slot None)
+  | L [A 0; A slot; L [A id]] => Some (E1Switch0 slot (Some id))
+  | L [A 3; A slot; L []] => Some (E1Switch1 slot TNone)
+  | L [A 3; A slot; L [A 0; A id]] => Some (E1Switch1 slot (TSheet id))
+  | L [A 3; A slot; L [A 1; A k]] => if k <? 0 then None else Some (E1Switch1 slot (TObj (Z.to_nat k)))
+  | L [A 1; A k; st] =>
+      match as_str st with Some st' => if k <? 0 then None else Some (E1Lookup (Z.to_nat k) st') | None => None end
+  | L [A 2; A k] => if k <? 0 then None else Some (E1Rules (Z.to_nat k))
+  | L [A 4; A k; st] =>
+      match as_str st with Some st' => if k <? 0 then None else Some (E1Lookup0 (Z.to_nat k) st') | None => None end
+  | _ => None
+  end.
+
 Definition run_C19 (c : sx) : sx :=
   match c with
   | L [A 1; A mode; sheets; style_str; default] =>
@@ -248,6 +286,11 @@ Definition run_C19 (c : sx) : sx :=
       match map_opt dec_query qs with
       | Some qs' => sx_list enc_answer (run_queries EMPTY_W qs')
       | None => bad_case
+      end
+  | L [A 19; L pool; L inner; L objs; L events] =>
+      match map_opt dec_pool_entry pool, map_opt dec_sty inner, map_opt dec_sty1 objs, map_opt dec_event1 events with
+      | Some p, Some i, Some o, Some es => sx_list enc_eanswer (run_events1 p i o (EMPTY_NS i o) es)
+      | _, _, _, _ => bad_case
       end
   | L [A 17; L pool; L objs; L events] =>
       match map_opt dec_pool_entry pool, map_opt dec_sty objs, map_opt dec_event events with
